@@ -8,11 +8,12 @@ PROP = {'drive': ['Header'],
                        'C03_parse_write',
                        'C03_tables_kept',
                        'C03_perm'],
- 'areas': [('header', 500, 8000)],
+ 'areas': [('header', 500, 8000), ('fontfile', 12, 120)],
+ 'harness_files': ['area_header.go', 'area_fontfile.go'],
  'rule': 'distinct case lines (scaler, tag->bytes map / file bytes); non-trivial = at least two tables',
  'partial': ["clause 'an independent sfnt implementation reading a complete font file reports the same glyph "
              "count, units per em, mapping, widths, names, outlines' is a corollary of C09/C11/C12/C14 spec "
-             'decoders and is only as complete as those; x/image oracle not yet wired',
+             'decoders and is only as complete as those; the x/image oracle (stream header.ximage) checks glyph count, units per em, character mapping and advance widths on complete files; glyph names and outlines are not yet compared',
              'C03_read_write (model of header.Read on the written file) is checked by correspondence only '
              '(stream header.read), not yet a theorem'],
  'modelled_not_verified': ['encoding/binary.Write and sort.Slice re-implemented in Lean (be16/be32, '
